@@ -369,12 +369,12 @@ def expected(c):
     return [canon_member(m) for m in cast]
 
 def oracle(c, ir):
-    if ir[0] != 'ok':
-        return 'movie rejected: %r' % (ir[1:],)
     try:
         exp = expected(c)
     except Exception as e:
-        return None        # the individual decoders reject a member: outside the property
+        return None        # the individual decoders reject a member themselves (e.g. a raw 16/32-bit bitmap, C06): outside the property
+    if ir[0] != 'ok':
+        return 'movie rejected although every member decodes on its own: %r' % (ir[1:],)
     if ir[1]['cast'] != exp:
         k = next((i for i in range(min(len(exp), len(ir[1]['cast']))) if exp[i] != ir[1]['cast'][i]), None)
         return 'cast slot %r is not the composition of the individual decoders over its own resources' % k
